@@ -1434,8 +1434,10 @@ func checkReplyID(p *an.Prog, r *an.Run) {
 	if handle == nil || write == nil {
 		bad = append(bad, "handleRequest does not both dispatch the request and write a reply")
 	} else {
-		if methodArgs(write)[0] != handle.Value() {
-			bad = append(bad, "the message written is not the handler's response")
+		for _, c := range an.Calls(hr, false) {
+			if f := an.CallObj(c); f != nil && f.Name() == "WriteMessage" && methodArgs(c)[0] != handle.Value() {
+				bad = append(bad, "the message written at "+p.Pos(c.Pos())+" is not the handler's response to this request (a remembered reply answers whatever is sent under the same id, registered or not, well-formed or not)")
+			}
 		}
 		if in := an.PathAvoiding(hr, nil, func(in ssa.Instruction) bool { return in == write.(ssa.Instruction) }, an.IsReturn, nil); in != nil {
 			bad = append(bad, "a path returns at "+p.Pos(in.Pos())+" without writing a reply")
@@ -1448,6 +1450,58 @@ func checkReplyID(p *an.Prog, r *an.Run) {
 		}
 		if !isMsgPrm {
 			bad = append(bad, "the message dispatched is not the one received")
+		}
+	}
+	// ... and the read loop hands every request it reads to the handler: from the branch taken for a message that
+	// carries a request, the next read is not reached without the dispatch (a "same id still in flight" filter leaves
+	// a different request that reuses the id without any reply)
+	if serve := p.Method("jsonrpc2", "Remote", "Serve"); serve != nil {
+		var disp, read ssa.Instruction
+		for _, c := range an.Calls(serve, false) {
+			if f := an.CallObj(c); f != nil && f.Name() == "ReadMessage" {
+				read = c.(ssa.Instruction)
+			}
+			if g, isGo := c.(*ssa.Go); isGo {
+				if calleeIs(c, hr) {
+					disp = g
+				} else if mc, ok := g.Call.Value.(*ssa.MakeClosure); ok {
+					if cf, _ := mc.Fn.(*ssa.Function); cf != nil {
+						for _, cc := range an.Calls(cf, false) {
+							if calleeIs(cc, hr) {
+								disp = g
+							}
+						}
+					}
+				}
+			}
+		}
+		if disp != nil && read != nil {
+			an.AllInstrs(serve, func(in ssa.Instruction) {
+				iff, ok := in.(*ssa.If)
+				if !ok {
+					return
+				}
+				rel, ok := an.NormCond(iff.Cond)
+				if !ok || (rel.Op != token.NEQ && rel.Op != token.EQL) {
+					return
+				}
+				v := rel.L
+				if isNilValue(v) {
+					v = rel.R
+				} else if !isNilValue(rel.R) {
+					return
+				}
+				if _, f, ok := embeddedPtrLoad(v); !ok || f != "Request" {
+					return
+				}
+				succ := 0
+				if rel.Op == token.EQL {
+					succ = 1
+				}
+				if hit := pathFromBlock(serve, iff.Block().Succs[succ], func(x ssa.Instruction) bool { return x == disp }, func(x ssa.Instruction) bool { return x == read || an.IsReturn(x) }); hit != nil {
+					bad = append(bad, "Serve can go on to "+p.Pos(hit.Pos())+" after reading a request without handing it to the handler: that request never gets a reply")
+				}
+			})
 		}
 	}
 	r.Check(len(bad) == 0, "reply-id", an.FuncName(hr), hr.Pos(), "every request is dispatched and its response written", "%s", strings.Join(bad, "; "))
